@@ -230,6 +230,50 @@ SPEC1 = [("a", "series", 0, 4, 1, (1,)), ("b", "series", 1, 3, 2, ()), ("c", "sc
 SPEC2 = [("a", "series", 2, 4, 1, ()), ("b", "series", -1, 3, 2, (1,)), ("c", "scalar", 4.5), ("z", "series", 0, 2, 1, ())]
 
 
+def check_slate_target(run, ir, spec, names, s0, s1):
+    """Dataslate.to_databox(target_db): the series are added to the EXISTING databox handed in (empty or not), which is also what is returned;
+    items of the target with other names are untouched"""
+    item = {s_[0]: s_ for s_ in spec}
+    for label, make_target in (("empty target", lambda: ir.Databox()), ("target with another item", lambda: ir.Databox(keepme=3.25))):
+        key = f"slate_target:{label}:names={names}:span={s0}..{s1}"
+        case = dict(kind="slate_target", label=label, names=list(names), s0=s0, s1=s1)
+        db, syms = _box(ir, spec)
+        span = _qq(ir, s0) >> _qq(ir, s1)
+        ds = ir.Dataslate.from_databox(db, names, span, num_variants=1)
+        target = make_target()
+        ret = ds.to_databox(target)
+        problems = []
+        if ret is not target:
+            problems.append("to_databox(target_db) returns another databox than the one handed in")
+        if label != "empty target" and target.get("keepme") != 3.25:
+            problems.append("an item of the target with another name was changed")
+        asks = []
+        for name in names:
+            if name not in target:
+                problems.append(f"{name} was not added to the target databox")
+                continue
+            cells = cellmap(target[name])
+            for k in range(s0 - 1, s1 + 2):
+                want = _input_cell(item[name], k, 0) if s0 <= k <= s1 else None
+                st, eq = _eq_cell(cells.get((B0 + k, 0)), want, syms)
+                if st == "bad":
+                    problems.append(f"{name}[{k}] in the target is {str(cells.get((B0 + k, 0)))[:30]} instead of {want}")
+                elif st == "ask":
+                    asks.append(eq)
+        if problems:
+            run.counterexample(key, "dataslate:to_databox:target", "; ".join(problems[:3]), dict(case, values={}))
+            continue
+        if asks:
+            r, m_ = run.prove(key, z3.And(*asks), [], timeout_ms=30000)
+            if r == "sat":
+                run.counterexample(key, "dataslate:to_databox:target", "a cell of the target differs from the slate cell", dict(case, values={}))
+                continue
+            if r != "unsat":
+                run.unknown(key, r)
+                continue
+        run.ok(key)
+
+
 def _other_spec():
     return [(n, k, *a) for (n, k, *a) in SPEC2]
 
@@ -590,6 +634,12 @@ def main(run):
                 run.unknown(f"slate_extend:{s0_}..{s1_}+{add_}", exc)
             except Exception as exc:
                 run.error(f"slate_extend:{s0_}..{s1_}+{add_}", exc)
+        try:
+            check_slate_target(run, ir, base_spec_, ("a", "b", "d"), 0, 3)
+        except S.SymbolicBranchError as exc:
+            run.unknown("slate_target", exc)
+        except Exception as exc:
+            run.error("slate_target", exc)
         for (name, f, o) in db_ops(ir):
             try:
                 check_db_op(run, ir, name, f, o)
@@ -670,6 +720,28 @@ def replay(case):
                         if (w is None) != (gcell is None) or (w is not None and abs(gcell - w) > 1e-12):
                             return True, f"to_databox {name}[{k}] variant {v}: {gcell!r} vs {w!r}"
             return False, "slate and databox agree with the input"
+        if case["kind"] == "slate_target":
+            spec = [s_ for s_ in _slate_specs("quick")[0][0]]
+            names, s0, s1 = tuple(case["names"]), case["s0"], case["s1"]
+            db, syms = _box(ir, spec)
+            ds = ir.Dataslate.from_databox(db, names, _qq(ir, s0) >> _qq(ir, s1), num_variants=1)
+            target = ir.Databox() if case["label"] == "empty target" else ir.Databox(keepme=3.25)
+            ret = ds.to_databox(target)
+            if ret is not target:
+                return True, "to_databox(target_db) returns another databox than the one handed in"
+            missing = [n for n in names if n not in target]
+            if missing:
+                return True, f"{missing} not added to the target databox"
+            item = {s_[0]: s_ for s_ in spec}
+            for name in names:
+                cells = cellmap(target[name])
+                for k in range(s0, s1 + 1):
+                    w = _input_cell(item[name], k, 0)
+                    w = syms[w[1]][2] if isinstance(w, tuple) else w
+                    gcell = cells.get((B0 + k, 0))
+                    if (w is None) != (gcell is None) or (w is not None and abs(gcell - w) > 1e-12):
+                        return True, f"{name}[{k}]: {gcell!r} vs {w!r}"
+            return False, "the target databox holds the slate"
         if case["kind"] == "slate_extend":
             spec = [s_ for s_ in _slate_specs("quick")[0][0]]
             names, s0, s1, add = tuple(case["names"]), case["s0"], case["s1"], case["add"]
